@@ -1,6 +1,6 @@
 (* C13 — Failure marking and stop-on-failed follow the configured failure strings.
    Property theorems only; proofs are in theories/GenericLemmas.v. *)
-From Scrapli Require Import Bytes Generic GenericLemmas.
+From Scrapli Require Import Bytes Generic GenericLemmas DecideLang GeneratedSkel DecideLoops.
 
 (* A response is marked failed exactly when its output contains one of the failure strings in
    force (hypothesis: the list holds no empty string — an empty string is contained in every
@@ -67,6 +67,18 @@ Example C13_nonvacuous :
       with MOk rs => rs | MNoOp => [] end) = [bs "show a"; bs "show b"].
 Proof. split; [intros [H|[]]; discriminate H | vm_compute; reflexivity]. Qed.
 
+(* THE TIE BY TRANSLATION (gen/decide.go -> GeneratedSkel.v, interpreted by DecideLang.exec):
+   util.StringContainsAnySubStrs as the source has it on this run returns, for every string and
+   every list (of any length: induction over the loop), what the model's scan returns; and
+   Response.Record as the source has it marks the response failed exactly when the model does *)
+Theorem C13_scan_is_source : forall s l, sc_run s l = Some (contains_any_substr s l).
+Proof. exact contains_any_is_source. Qed.
+
+Theorem C13_record_is_source : forall cmd out fws,
+  rec_run (is_nilb (contains_any_substr out fws))
+  = Some (match r_failed (record cmd out fws) with Some _ => true | None => false end).
+Proof. exact record_is_source. Qed.
+
 Print Assumptions C13_failed_iff.
 Print Assumptions C13_failed_first.
 Print Assumptions C13_precedence.
@@ -74,3 +86,5 @@ Print Assumptions C13_multi.
 Print Assumptions C13_nostop.
 Print Assumptions C13_stop.
 Print Assumptions C13_collapse.
+Print Assumptions C13_scan_is_source.
+Print Assumptions C13_record_is_source.
